@@ -625,3 +625,14 @@ package parse
 //@ iface io.Writer.Write
 //@   readonly arg0
 //@   ensures[S] true
+
+// ---- recursion that follows a finite, already built data structure (not input-driven); its depth is the depth of that
+// structure. Listed as assumptions of the depth argument (C01).
+//@ recursion structural js.Walk -- recursion over the AST, whose depth the parser's nesting limits bound
+//@ recursion structural js.*.JS -- printing recursion over the AST
+//@ recursion structural js.*.String -- printing recursion over the AST
+//@ recursion structural js.*.JSON -- printing recursion over the AST
+//@ recursion structural js.Parser.exprToBinding* -- conversion of an already parsed expression tree into a binding pattern
+//@ recursion structural parse.BinaryReader.* -- a BinaryReader wrapping a reader back end that wraps another BinaryReader: depth of the object nesting built by the caller
+//@ recursion structural parse.binaryReader*.* -- same
+//@ recursion structural parse.Indenter.Write -- an Indenter writing into another Indenter: depth of the writer nesting built by the caller
